@@ -89,3 +89,24 @@ def c15_heterogeneous_predictive(v):
         return False
     return v['mechanism'].startswith(
         'ValueError@chi/_population_models.py:compute_individual_parameters')
+
+
+def c05_composed_matrix_layout(v):
+    """
+    ComposedPopulationModel documents the (n_param_per_dim, n_dim) matrix and
+    the per-individual tensor layout, but every method slices the parameters
+    along the first axis as if they were flat: a matrix / tensor of the same
+    values raises (IndexError / broadcast ValueError) or, for one individual,
+    silently scores another value.  Attributed only to composed models with a
+    non-flat layout and only to those two signatures in compute_log_likelihood.
+    """
+    f = v.get('features', {})
+    if not f.get('composed') or f.get('layout') not in ('matrix', 'tensor'):
+        return False
+    m = v['mechanism']
+    if v['monitor'] == 'layout_invariance':
+        return m.startswith('layout_value_differs:composed:')
+    if v['monitor'] == 'composed_layout_raises':
+        return m.startswith(('IndexError@chi/_population_models.py',
+                             'ValueError@chi/_population_models.py'))
+    return False
